@@ -33,7 +33,7 @@ m = {
                  "kind_free_text": "driver: rebuilds the check's Go test binary from /repo's working tree with -tags verif, runs rapid (pgregory.net/rapid v1.3.0) property legs in up to 16 seeded shards, plain enumeration legs and (thorough only) native go fuzz legs; merges evidence; classifies violations by root-cause signature against known_findings.json"}],
     "checks": checks,
     "not_applicable": na,
-    "notes": "All checks are property-based tests / fuzzing over generated inputs, histories, schedules or injected faults with explicit oracles (see DESIGN.md). VERIF_SEED selects the rapid seeds (seed*1000+shard); exit 2 = inconclusive (build failure, budget hit), never a violation.",
+    "notes": "All checks are property-based tests / fuzzing over generated inputs, histories, schedules or injected faults with explicit oracles (see DESIGN.md). VERIF_SEED selects the rapid seeds (seed<<44 + shard<<36 + 1, shards far apart because rapid advances its seed per case); exit 2 = inconclusive (build failure, budget hit), never a violation.",
 }
 json.dump(m, open(os.path.join(V, 'MANIFEST.json'), 'w'), indent=1)
 print("checks:", [c["property_id"] for c in checks], "not_applicable:", len(na))
